@@ -150,7 +150,8 @@ def uvl_value(g, depth=0):
     if k == "float":
         return rng.choice([0.5, 1.25, -2.75, 3.0, 100.125, 0.1, -0.001, 12345.678, 0.0])
     if k == "str":
-        return rng.choice(["x", "hello world", "ñ", "a-b", "UPPER", "with \"dq\"", "1", "true", " "])
+        return rng.choice(["x", "hello world", "ñ", "a-b", "UPPER", "with \"dq\"", "1", "true", " ", "C:\\new", "a\\nb\\t",
+                           "back\\slash\\", "%d{x}"])
     if k == "list":
         n = rng.choice([1, 1, 2, 3])
         return [v for v in (uvl_value(g, depth + 1) for _ in range(n)) if v is not None] or [1]
